@@ -863,4 +863,117 @@ theorem runOfGDuo_patient : I2N.Trav.GlobalN.Patient gDuo (initState gDuo 2 []) 
 example := nonbounce_steps_bounded_partial gDuo (by decide) (by decide) (by decide) (by decide) 2 (by decide) (by decide)
   (by decide +kernel) [] runOfGDuo (by decide) (by decide) runOfGDuo_patient
 
+open I2N.Trav.GlobalN in
+/-- **bounce_only_while_someone_runs** (`bounce_needs_runner` lifted from states to steps).  Any graph with edges recorded
+at both ends (lazily expanded ones included), any reachable state, any real worker `w`, any outcome, positive fuel: if the
+step of `w` ENDS in the back-off sleep — whatever it did before in that step: settle a test, walk, clean up —, then some
+OTHER real worker `v` is, at the beginning of the step (and, `w`'s step not touching `v`'s record, at its end), suspended
+inside a test execution or dead (`failed`).  Hence workers never sleep waiting for each other only, and a worker all of whose
+peers are `done` never sleeps (`last_worker_terminates_partial`).
+Proof: if every other worker is neither inside a test nor dead, no `started` mark exists while `w` is in its loop
+(`PInvO.markPc`), so `is_occupied` is false in every iteration of the step (`GlobalN.resume_quiet`: one more walk through
+`traverseNode`, `iter`, `iterL`, `runLoop`, `continueAfter`, `resumeTest`, `resume`).
+`0 < fuel` is needed for the trivial reason that a step without fuel leaves a sleeping worker asleep
+(`fuelless_step_stays_asleep`); the `failed` alternative is needed because a dead worker keeps its mark
+(`dead_holder_blocks_last_worker`). -/
+theorem bounce_only_while_someone_runs (g : Graph) (hsym : EdgeSym g) (ncls : Nat)
+    (store : List (String × List (String × String))) (s : State) (h : ReachableF g ncls store s) (w : Nat)
+    (hw : w < g.workers.length) (out : Outcome) (fuel : Nat) (hf : 0 < fuel)
+    (hb : ((resume g s w out fuel).1.wd w).pc = .bounce) :
+    ∃ v, v ≠ w ∧ v < g.workers.length ∧ ((∃ m, (s.wd v).pc.node? = some m) ∨ (s.wd v).pc = .failed) :=
+  bounce_has_runner g hsym s w out fuel hf hw (h.pinv hsym) hb
+
+open I2N.Trav.Term I2N.Trav.Global I2N.Trav.GlobalN in
+/-- **last_worker_terminates** (`_partial`: class hypotheses; the prefix of the run is patient).  Hypotheses of
+`nonbounce_steps_bounded_partial`; `pre` is any patient run of any workers after which every real worker but `w` is `done`.
+Then, whatever `w`'s own back-off record is (it may have over-waited before) and whatever its tests do from now on:
+along ANY further steps of `w` with `fuel ≥ bound g` the others stay done, `w` never ends a step in the back-off sleep,
+and after any `24·Σ_n max(max_tries n, 1) + 13·|workers| + 1` such steps `w` is `done` or `failed` — the whole traversal is
+over.  With one worker and `pre = []` this is `single_worker_terminates_partial` again (with a slightly larger bound).
+"`done`" cannot be weakened to "`done` or `failed`": a dead worker keeps its `started` mark, and the last worker sleeps in
+front of it for ever (`dead_holder_blocks_last_worker` shows the first sleep; in the code the exception of one worker
+propagates through `asyncio.gather` in `plugins/runner.py` and ends the whole run, so there the sleeping worker is simply
+not resumed any more — the endless sleep is a property of the model's scheduler view only). -/
+theorem last_worker_terminates_partial (g : Graph) (hr : rankedB g = true) (hsym : edgeSymB g = true)
+    (hflat : noFlatB g = true) (hwf : graphWF g = true) (ncls : Nat)
+    (hcls : ∀ n, n < g.nodes.length → (g.node n).cls < ncls) (hroots : noRootsB g = true) (hcl : classesOKB g = true)
+    (store : List (String × List (String × String))) (pre : List StepN)
+    (hreal : ∀ x ∈ pre, x.1 < g.workers.length) (hfuel : ∀ x ∈ pre, bound g ≤ x.2.2)
+    (hpat : Patient g (initState g ncls store) pre) (w : Nat) (hw : w < g.workers.length)
+    (hdone : ∀ v, v ≠ w → v < g.workers.length → ((runStepsN g (initState g ncls store) pre).wd v).pc = .done)
+    (steps : List (Outcome × Nat)) (hfuel' : ∀ x ∈ steps, bound g ≤ x.2) :
+    (∀ v, v ≠ w → v < g.workers.length →
+      ((runW g w (runStepsN g (initState g ncls store) pre) steps).wd v).pc = .done) ∧
+    (steps ≠ [] → ((runW g w (runStepsN g (initState g ncls store) pre) steps).wd w).pc ≠ .bounce) ∧
+    (24 * resultBound g + 13 * g.workers.length + 1 ≤ steps.length →
+      ((runW g w (runStepsN g (initState g ncls store) pre) steps).wd w).pc = .done ∨
+      ((runW g w (runStepsN g (initState g ncls store) pre) steps).wd w).pc = .failed) := by
+  have st : StaticN g ncls := ⟨hr, hsym, hflat, hwf, hcls⟩
+  obtain ⟨y, _⟩ := run_cntN st hroots pre _ (ginvN_init g ncls store) hreal hfuel hpat
+  obtain ⟨_, z2, z3, _⟩ := lastWorker_run st hroots w hw steps _ y hdone hfuel'
+  refine ⟨z2, z3, fun hlen => ?_⟩
+  have h := lastWorker_over st hroots hcl w hw steps _ y hdone hfuel' hlen
+  cases hpc : ((runW g w (runStepsN g (initState g ncls store) pre) steps).wd w).pc with
+  | done => exact Or.inl rfl
+  | failed => exact Or.inr rfl
+  | test n ph dir uid tag wait => rw [hpc] at h; cases h
+  | loop => rw [hpc] at h; cases h
+  | bounce => rw [hpc] at h; cases h
+
+/-- non-vacuity: after `runOfGDuo` worker 0 is done and worker 1 — asleep in front of the class worker 0 had occupied — is
+the last worker; its next step (fuel `≥ bound gDuo = 82`) does not end asleep: it leaves through the shared root -/
+example : ((I2N.Trav.GlobalN.runW gDuo 1 (I2N.Trav.GlobalN.runStepsN gDuo (initState gDuo 2 []) runOfGDuo)
+    [(⟨none, 0⟩, 82)]).wd 1).pc ≠ .bounce :=
+  (last_worker_terminates_partial gDuo (by decide) (by decide) (by decide) (by decide) 2 (by decide) (by decide)
+    (by decide +kernel) [] runOfGDuo (by decide) (by decide) runOfGDuo_patient 1 (by decide)
+    (by
+      intro v hv hvl
+      have hv0 : v = 0 := by
+        have : v < 2 := hvl
+        omega
+      subst hv0
+      have h : pcIsDone ((I2N.Trav.GlobalN.runStepsN gDuo (initState gDuo 2 []) runOfGDuo).wd 0).pc = true := by
+        decide +kernel
+      cases hpc : ((I2N.Trav.GlobalN.runStepsN gDuo (initState gDuo 2 []) runOfGDuo).wd 0).pc <;> rw [hpc] at h <;>
+        first | rfl | cases h)
+    [(⟨none, 0⟩, 82)] (by decide)).2.1 (by simp)
+example : pcIsDone ((I2N.Trav.GlobalN.runW gDuo 1 (I2N.Trav.GlobalN.runStepsN gDuo (initState gDuo 2 []) runOfGDuo)
+    [(⟨none, 0⟩, 82)]).wd 1).pc = true := by decide +kernel
+/-- the step of worker 1 in `runOfGDuo` ends asleep, and worker 0 is inside a test then -/
+example := bounce_only_while_someone_runs gDuo (edgeSymB_sound (by decide)) 2 []
+  (I2N.Trav.GlobalN.runStepsN gDuo (initState gDuo 2 []) (runOfGDuo.take 1))
+  (.step _ 0 ⟨none, 0⟩ 82 (.init []) (by decide) (by decide)) 1 (by decide) ⟨none, 0⟩ 82 (by decide)
+  (by
+    have h : pcIsBounce ((resume gDuo (I2N.Trav.GlobalN.runStepsN gDuo (initState gDuo 2 []) (runOfGDuo.take 1)) 1
+        ⟨none, 0⟩ 82).1.wd 1).pc = true := by decide +kernel
+    cases hpc : ((resume gDuo (I2N.Trav.GlobalN.runStepsN gDuo (initState gDuo 2 []) (runOfGDuo.take 1)) 1
+        ⟨none, 0⟩ 82).1.wd 1).pc <;> rw [hpc] at h <;> first | rfl | cases h)
+
+/-- Witness that `0 < fuel` cannot be dropped from `bounce_only_while_someone_runs`: a step without fuel leaves the sleeping
+worker 1 of `gDuo` asleep although worker 0 is done. -/
+theorem fuelless_step_stays_asleep :
+    (fun s : State => (pcIsDone (s.wd 0).pc, pcIsBounce ((resume gDuo s 1 ⟨none, 0⟩ 0).1.wd 1).pc))
+      (I2N.Trav.GlobalN.runStepsN gDuo (initState gDuo 2 []) runOfGDuo) = (true, true) := by decide +kernel
+
+/-- three workers of one swarm, one class with `max_tries = -1` (as `gNeg`) -/
+def gNeg3 : Graph :=
+  { workers := [{ id := "net1", swarm := "localhost" }, { id := "net2", swarm := "localhost" },
+                { id := "net3", swarm := "localhost" }],
+    nodes := [{ cls := 0, owner := none, name := "root", pfx := "0", sharedRoot := true,
+                cleanup := [(1, ["vm1"]), (2, ["vm1"]), (3, ["vm1"])] },
+              { cls := 1, owner := some 0, name := "leaf.net1", pfx := "1", setup := [(0, ["vm1"])], maxTries := some (-1) },
+              { cls := 1, owner := some 1, name := "leaf.net2", pfx := "2", setup := [(0, ["vm1"])], maxTries := some (-1) },
+              { cls := 1, owner := some 2, name := "leaf.net3", pfx := "3", setup := [(0, ["vm1"])], maxTries := some (-1) }],
+    root := 0 }
+
+/-- Witness that "the others are `done`" cannot be weakened to "the others are over" in `last_worker_terminates_partial`,
+and that the `failed` alternative of `bounce_only_while_someone_runs` is needed: worker 0 dies after its test (mark returned),
+worker 1 dies inside the run decision of its copy and keeps the mark (`dead_worker_keeps_mark`); worker 2 — the last one
+alive — finds the class occupied and goes to sleep, with nobody left to wake it up. -/
+theorem dead_holder_blocks_last_worker :
+    (fun s : State => ((s.wd 0).pc.isFailed, (s.wd 1).pc.isFailed, (s.nd 2).started, pcIsBounce (s.wd 2).pc))
+      (I2N.Trav.GlobalN.runStepsN gNeg3 (initState gNeg3 2 [])
+        [(0, ⟨none, 0⟩, 144), (0, ⟨some "PASS", 1⟩, 144), (1, ⟨none, 0⟩, 144), (2, ⟨none, 0⟩, 144)]) =
+      (true, true, some 1, true) := by decide +kernel
+
 end I2N.Props.C02
